@@ -756,7 +756,7 @@ class Spec:
     def daemon_cases(self, ctx, boost):
         rng = ctx.rng
         thorough = ctx.tier == "thorough"
-        n = (30000 if thorough else 3000) * (2 if boost else 1)
+        n = (40000 if thorough else 8000) * (2 if boost else 1)
         arenas = [256, 512, 1024, 1536, 4096, 32768]
         cases = []
         for i in range(n):
